@@ -17,6 +17,7 @@ import (
 	"github.com/btcsuite/btcd/btcutil/v2/txsort"
 	"github.com/btcsuite/btcd/chainhash/v2"
 	"github.com/btcsuite/btcd/wire/v2"
+	"github.com/btcsuite/btcwallet/walletdb"
 	"github.com/lightningnetwork/lnd/channeldb"
 	"github.com/lightningnetwork/lnd/chanstate"
 	"github.com/lightningnetwork/lnd/fn/v2"
@@ -230,8 +231,8 @@ func chanCfg(p Params, side int, keys []*btcec.PrivateKey) channeldb.ChannelConf
 	}
 }
 
-func openDB(dir string, noAmt bool) (*channeldb.DB, *FaultDB, error) {
-	backend, err := kvdb.GetBoltBackend(&kvdb.BoltBackendConfig{
+func openBolt(dir string) (walletdb.DB, error) {
+	return kvdb.GetBoltBackend(&kvdb.BoltBackendConfig{
 		DBPath:            dir,
 		DBFileName:        "channel.db",
 		NoFreelistSync:    true,
@@ -239,6 +240,10 @@ func openDB(dir string, noAmt bool) (*channeldb.DB, *FaultDB, error) {
 		AutoCompactMinAge: kvdb.DefaultBoltAutoCompactMinAge,
 		DBTimeout:         kvdb.DefaultDBTimeout,
 	})
+}
+
+func openDB(dir string, noAmt bool) (*channeldb.DB, *FaultDB, error) {
+	backend, err := openBackend(dir)
 	if err != nil {
 		return nil, nil, err
 	}
@@ -263,6 +268,7 @@ func chanOpts() []lnwallet.ChannelOpt {
 func New(t TB, p Params) *Sim {
 	t.Helper()
 	s := &Sim{T: t, P: p}
+	s.label("kvdb_" + Backend)
 	s.M.RevMsgs[0] = map[uint64]*lnwire.RevokeAndAck{}
 	s.M.RevMsgs[1] = map[uint64]*lnwire.RevokeAndAck{}
 
